@@ -45,7 +45,11 @@ fn decode(tape: &[u32], tier: Tier) -> Case {
             let act = [ActK::Linear, ActK::Tanh, ActK::Sigmoid, ActK::ReLU, ActK::Leaky, ActK::Softmax][t.pick(6)];
             NetSpec { input, layers: vec![LayerSpec::Dense { out: t.usize(1, 10), act, bias: t.bool(), dropout: None }] }
         } else {
-            let input = vec![t.usize(1, o.max_c), t.usize(1, o.max_hw), t.usize(1, o.max_hw)];
+            // one spatial case in 40 is large (13-32 pixels a side, kernels up to 7, pooling windows up to the whole
+            // map, i.e. up to 1024 elements): index types and blocking constants of the inner loops
+            let large = t.chance(1, 40);
+            let o = if large { GenOpts { max_hw: 32, max_kernel: 7, max_c: 2, ..o } } else { o };
+            let input = if large { vec![t.usize(1, 2), t.usize(13, 32), t.usize(13, 32)] } else { vec![t.usize(1, o.max_c), t.usize(1, o.max_hw), t.usize(1, o.max_hw)] };
             let (h, w) = (input[1], input[2]);
             let l = match which {
                 1 => {
@@ -57,8 +61,8 @@ fn decode(tape: &[u32], tier: Tier) -> Case {
                 }
                 2 => LayerSpec::Deconv { cfg: gen_deconv(&mut t, h, w, &o), act: gen_act(&mut t, &o), dropout: None },
                 _ => {
-                    let kh = t.usize(1, h.min(4));
-                    let kw = t.usize(1, w.min(4));
+                    let kh = t.usize(1, if large { h } else { h.min(4) });
+                    let kw = t.usize(1, if large { w } else { w.min(4) });
                     LayerSpec::Pool { kernel: (kh, kw), stride: (t.usize(1, kh + 1), t.usize(1, kw + 1)) }
                 }
             };
@@ -89,6 +93,14 @@ fn check_single(case: &Case, ev: &mut CaseEv) -> CheckResult {
     let spec = &case.spec;
     let l = &spec.layers[0];
     ev.class(format!("single:{}", l.kind()));
+    if spec.input.len() == 3 && spec.input[1] >= 13 && spec.input[2] >= 13 && matches!(l, LayerSpec::Pool { .. } | LayerSpec::Conv { .. } | LayerSpec::Deconv { .. }) {
+        ev.class("single: large map (13-32 a side)");
+        if let LayerSpec::Pool { kernel, .. } = l {
+            if kernel.0 * kernel.1 > 256 {
+                ev.class("single: pooling window > 256 elements");
+            }
+        }
+    }
     let mut net = build(spec).map_err(|p| {
         let msg = format!("valid single-layer request {:?} on input {:?} rejected: {}", l, spec.input, p);
         Fail::new(msg)
@@ -325,7 +337,7 @@ impl Prop for C02 {
         t.pick(300_000, 20_000_000)
     }
     fn rule(&self) -> String {
-        "tape-decoded cases: (3/4) one layer of a chosen kind (dense incl. soft-max, convolution, deconvolution, max-pool) over the configuration lattice channels 1-3, height/width 1-8 (thorough 1-12) non-square, filters 1-3 (1/6 of the convolutions: 12-24), dense inputs 1-12 (1/6: 60-300), kernel 1-3 (5), stride 1-3 (4), padding 0-2, dilation 1-2 (3), constructed so that the effective kernel fits; distinct random taps and inputs at scales 1e-20/1e-9/0.01/1/30 (dense also 300); each spatial layer is fed the c x h x w tensor and its flattening. (1/4) sequences of 2-5 fitting layers incl. feedback blocks without skips and flat<->spatial transitions; one in five of them is compared after a short early-stopped learn() run with dropout layers (trained weights read back through the hooks). Oracles: f64 defining operators with a forward-error bound 4(n+1)eps*sum|terms| (max-pool exact), bitwise equality of both input representations, bitwise equality of Network::forward/predict with the fold of the library's own single-layer forwards, final output vs f64 reference network (2e-4 relative to the output scale, skipped near kinks/ties). Non-trivial: spatial layer or sequence. Distinct = full specification.".into()
+        "tape-decoded cases: (3/4) one layer of a chosen kind (dense incl. soft-max, convolution, deconvolution, max-pool) over the configuration lattice channels 1-3, height/width 1-8 (thorough 1-12) non-square, filters 1-3 (1/6 of the convolutions: 12-24), dense inputs 1-12 (1/6: 60-300), kernel 1-3 (5), stride 1-3 (4), padding 0-2, dilation 1-2 (3), constructed so that the effective kernel fits; one spatial case in 40 on maps of 13-32 pixels a side with kernels up to 7 and pooling windows up to the whole map (up to 1024 elements); distinct random taps and inputs at scales 1e-20/1e-9/0.01/1/30 (dense also 300); each spatial layer is fed the c x h x w tensor and its flattening. (1/4) sequences of 2-5 fitting layers incl. feedback blocks without skips and flat<->spatial transitions; one in five of them is compared after a short early-stopped learn() run with dropout layers (trained weights read back through the hooks). Oracles: f64 defining operators with a forward-error bound 4(n+1)eps*sum|terms| (max-pool exact), bitwise equality of both input representations, bitwise equality of Network::forward/predict with the fold of the library's own single-layer forwards, final output vs f64 reference network (2e-4 relative to the output scale, skipped near kinks/ties). Non-trivial: spatial layer or sequence. Distinct = full specification.".into()
     }
     fn run_case(&self, tape: &[u32], ev: &mut CaseEv) -> CheckResult {
         let c = decode(tape, self.0);
